@@ -338,7 +338,7 @@ func c01(x *mon.Ctx) {
 		w.Q.Chain = b.Q.Chain // the acceptable quote's QE report and signatures under an untrusted look-alike chain
 		reentrantCollaborators(x, "reentrant-getter", honest, w.Case(world.LColl, "chain-of-an-untrusted-lookalike-pki", "reentrant-getter"))
 		w = b.Clone()
-		w.Roots = a.Roots
+		w.Roots, w.Times = a.Roots, a.Times // judged by the verifier that trusts a's world, at a's instants
 		reentrantCollaborators(x, "reentrant-getter", honest, w.Case(world.LColl, "quote-entirely-from-an-untrusted-pki", "reentrant-getter"))
 		x.Require("reentrant-getter", 0, 8, 12)
 	}
